@@ -267,6 +267,11 @@ pub fn run(seed: u64, run_id: usize, p: &Params) {
             let x = [16i64, 48, 8, 160, -16, -8][rng.random_range(0..6)];
             w.adjust_debt(x);
             w.snap();
+        } else if roll < 74 {
+            // a new pacing in the middle of whatever the collector is doing
+            let pq = pick_pacing(&mut rng);
+            w.set_pacing_q(pq.0, pq.1, pq.2, pq.3, pq.4, pq.5, pq.6);
+            w.snap();
         } else {
             let kind = match rng.random_range(0..16) {
                 0..=5 => "collect_debt",
